@@ -21,6 +21,7 @@ WITNESS = {
     "fdtsched": {"target": "src/sender/fdt.rs", "src": "units/fdtsched/witness.rs"},
     "sendsched": {"target": "src/sender/sendersession.rs", "src": "units/sendsched/witness.rs"},
     "filedesc": {"target": "src/sender/filedesc.rs", "src": "units/filedesc/witness.rs"},
+    "confine": {"target": "src/receiver/writer/objectwriterfs.rs", "src": "units/confine/witness.rs"},
 }
 WITNESS = {k: v for k, v in WITNESS.items() if os.path.exists(os.path.join(VERIF, v["src"]))}
 
@@ -178,7 +179,7 @@ PROPS = {
         "not_covered": ["ObjectDataSource::len position restore", "file sources (std::fs)"],
     },
     "C05": {
-        "level": "other", "verus": [], "kani": KANI_WIRE, "structural": ["s_fs_sinks_flow_from_confinement"],
+        "level": "other", "verus": [], "kani": KANI_WIRE, "structural": ["s_fs_sinks_flow_from_confinement"], "fallback_witness": "confine",
         "technique": "structural data-flow obligation on the fs sinks + Kani bounded harness on the confinement function (url crate over-approximated)",
         "claim": "every std::fs sink in objectwriterfs.rs takes a path produced by the lexical confinement function; that function, for every path string up to the stated bound, "
                  "returns only paths below the destination directory",
